@@ -9,7 +9,7 @@ From Anthem Require Import Base.ISet Base.Fresh Syntax.Fol Syntax.Asp
   Model.SimplIntuit Model.SimplClassic Model.StrongFull
   Proofs.SimplCongr Proofs.SimplIntuitOk Proofs.StrategyClsOk Proofs.SimplFull Proofs.StrongFullOk
   Proofs.SimplClassicTotal Proofs.ParserImage Proofs.ParserImagePipeline Proofs.NoPanic
-  Proofs.TaskPipelineBn Proofs.TaskPipelineFv Proofs.TaskPipelineClosed Proofs.TaskPipelineTrans.
+  Proofs.TaskPipelineBn Proofs.TaskPipelineFv Proofs.TaskPipelineClosed Proofs.TaskPipelineTrans Proofs.TaskPipelineMu.
 From Anthem Require Model.StrategyCls.
 Import ListNotations.
 Open Scope string_scope.
@@ -152,18 +152,19 @@ Proof.
   - exact (Hb _ Hr3 _ H).
 Qed.
 
-(* tau*: the hypothesis is discharged (programs of the parser image: every variable has a name) *)
+(* both representations: the hypothesis is discharged for programs of the parser image (every
+   variable has a name) - tau*: Proofs/TaskPipelineTrans.v, mu: Proofs/TaskPipelineMu.v *)
+Lemma repr_sentences_named t P : program_vars_named P -> repr_sentences t P.
+Proof.
+  intros HP th. unfold repr_full. destruct (st_repr t).
+  - destruct (mu_full P) as [G|] eqn:E; cbn [of_panic]; [|discriminate]. intros [= <-]. exact (mu_full_psent _ _ HP E).
+  - destruct (tau_star P) as [G|] eqn:E; cbn [of_panic]; [|discriminate]. intros [= <-]. exact (tau_star_psent _ _ HP E).
+Qed.
 Theorem strong_full_sentences fuel t pbs pb :
-  st_repr t = ReprTauStar -> program_vars_named (st_left t) -> program_vars_named (st_right t) ->
+  program_vars_named (st_left t) -> program_vars_named (st_right t) ->
   strong_decompose_full_fuel fuel t = SOk pbs -> In pb pbs ->
   exists raw, In pb (pipeline raw (st_decomposition t)) /\
     forall a, In a (pb_formulas raw) -> sent (pf_formula a).
 Proof.
-  intros Hrep Hl Hr. apply strong_full_sentences_partial.
-  - intros th. unfold repr_full. rewrite Hrep.
-    destruct (tau_star (st_left t)) as [G|] eqn:E; cbn [of_panic]; [|discriminate].
-    intros [= <-]. exact (tau_star_psent _ _ Hl E).
-  - intros th. unfold repr_full. rewrite Hrep.
-    destruct (tau_star (st_right t)) as [G|] eqn:E; cbn [of_panic]; [|discriminate].
-    intros [= <-]. exact (tau_star_psent _ _ Hr E).
+  intros Hl Hr. apply strong_full_sentences_partial; apply repr_sentences_named; assumption.
 Qed.
